@@ -310,10 +310,12 @@ MANIFEST = dict(
         "statistic changes only by += of a term of the new batch, never reading the current statistics), which makes "
         "the stored statistics a function of the multiset of frames - i.e. invariant to every partition and order of "
         "accumulation in exact arithmetic; the store formulas in rational normal form; forwarding of the three Modules "
-        "and of the statistics command; the gamma == 0 short-circuit and transpose symmetry of the discounted return. "
+        "and of the statistics command; the gamma == 0 short-circuit and transpose symmetry of the discounted return; "
+        "in feat_deltas each dimension argument is resolved and range-checked against the rank of the tensor it "
+        "indexes (input rank for time_dim; output rank, one more when stacking, for dim). "
         "Necessary (and, for partition invariance, sufficient up to floating point) structural clauses of C18; delta "
         "filter values and the discount product are numerical and not decided."),
     level_note="Trusted: python ast; real-number idealisation of double-precision accumulation.",
-    technique="static analysis: additive-homomorphism (monoid) effect rule, rational normal forms, sibling transpose symmetry, forwarding completeness",
+    technique="static analysis: additive-homomorphism (monoid) effect rule, rational normal forms, sibling transpose symmetry, forwarding completeness, partial evaluation + rank-term comparison",
     design_ref="DESIGN.md section 4 C18",
 )
